@@ -621,6 +621,15 @@ def set_rule(F, R):
     ok = len(st) == 1
     d = describe_rv(b, st[0][1]['rv']) if st else '?'
     ok = ok and d.startswith('parameter::State::Tweening(parameter::Parameter::<T>::value(') and ', target, 0.0, tween)' in d
+    if not ok and len(st) == 1:
+        # whatever the fields are called and in whichever order (or through a private constructor): the new state holds the
+        # current value as its start, the command's target and tween, and an elapsed time of zero
+        aggs = [(bb, s) for bb, si, s in b.stmts() if s['k'] == 'assign' and s['rv']['k'] == 'agg' and s['rv'].get('ak') == 'adt'
+                and (s['rv'].get('adt') or '').endswith('parameter::State') and s['rv'].get('variant') == 'Tweening']
+        if len(aggs) == 1:
+            ops = sorted(describe(b, o, depth=5, at=aggs[0][0]) for o in aggs[0][1]['rv']['ops'])
+            ok = ops == sorted(['0.0', 'parameter::Parameter::<T>::value(&(*self))', 'target', 'tween'])
+            d = 'Tweening(%s)' % ', '.join(ops)
     R.check(ok, 'B.C06.set', 'state', 'Parameter::set builds %s, not Tweening{start: self.value(), target, time: 0.0, tween}' % d,
             detail={'state': d[:160]}, where=b.file)
     sg = [(bb, s) for bb, si, s in b.stmts() if s['k'] == 'assign' and pretty_place(b, s['lhs']) == '(*self).stagnant']
@@ -789,7 +798,7 @@ def sib(F, R):
                 ge = tr
         st = [s for x in p.blocks for s in b.blocks[x]['stmts'] if s['k'] == 'assign' and pretty_place(b, s['lhs']) == '(*self).value']
         if ge is True:
-            ok = len(st) == 1 and describe_rv(b, st[0]['rv']).endswith(('.values.1', ' as Tweening).target'))
+            ok = len(st) == 1 and describe_rv(b, st[0]['rv']).endswith(('.values.1', ' as Tweening).target', ' as Tweening).to'))
     R.check(ok, 'B.C06.sib', 'tweener-finish', 'the tweener does not land exactly on its target when time >= duration', detail='value = values.1')
 
 
